@@ -155,7 +155,7 @@ impl Property for C09 {
         "C09"
     }
     fn rule(&self) -> String {
-        "cases: vectors in Fr^n (n=1..8, boundary-weighted, incl. all-equal) and byte strings (block-edge lengths 135/136/137/271.., long patterns); \
+        "cases: vectors in Fr^n (n=1..8, boundary-weighted, incl. all-equal) and byte strings (block-edge lengths 135/136/137/271.., long patterns, lengths 2^k-1 / 2^k / 2^k+1 for k = 10..17 (20 in the thorough tier), 100000, 200000); \
          each compared on three entry points (typed, byte-level with readers handing out 1 / 7 / 33 bytes per call or everything at once and writers accepting as little, FFI with separate and with one shared Buffer struct) against the BigUint reference Poseidon / own Keccak sponge; KeccakSeq / PoseidonSeq: related inputs (equal length, one byte / one element changed, mostly near the end so that a long prefix is shared) hashed back to back on one thread in the order s, s', s, s' — each result against the reference (purity across calls). \
          non-trivial = Poseidon with n>=4 or a boundary element, or a byte string whose length is within 1 of a multiple of 136 (>=135) or > 136; distinct by case content".into()
     }
@@ -183,6 +183,8 @@ impl Property for C09 {
             4 => (1usize..=8).prop_flat_map(|n| proptest::collection::vec(gens::fx(), n)).prop_map(Case::Poseidon),
             1 => (1usize..=8, gens::fx()).prop_map(|(n, f)| Case::Poseidon(vec![f; n])),
             4 => gens::bytes(max_long).prop_map(Case::Keccak),
+            // lengths next to a power of two, 2^10 .. 2^17 (2^20 in the thorough tier)
+            1 => (10u32..=tier.pick(17, 20), 0usize..5, any::<u64>()).prop_map(|(k, d, seed)| Case::Keccak(Bytes::Pat { len: (1usize << k) + d - 2, seed })),
             2 => (gens::bytes(2000), any::<u16>(), 1u8..=255).prop_map(|(base, at, xor)| Case::KeccakSeq { base, at, xor }),
             1 => ((1usize..=8).prop_flat_map(|n| proptest::collection::vec(gens::fx(), n)), any::<u8>(), gens::fx()).prop_map(|(v, at, other)| Case::PoseidonSeq { v, at, other }),
         ]
@@ -273,7 +275,10 @@ impl Property for C09 {
             }
             fixed.push(Case::Poseidon((0..n).map(|i| Fx::from_u64(i as u64 + 1)).collect()));
         }
-        for len in gens::EDGE_LENS.iter().copied().chain([1000usize, 4096, 10_000]) {
+        // size ladder: one below / at / one above every power of two up to 2^17 (buffer and chunk sizes
+        // inside readers and hashers are powers of two)
+        let ladder = (12u32..=17).flat_map(|k| [(1usize << k) - 1, 1 << k, (1 << k) + 1]).chain([100_000usize, 200_000]);
+        for len in gens::EDGE_LENS.iter().copied().chain([1000usize, 4096, 10_000]).chain(ladder) {
             fixed.push(Case::Keccak(Bytes::Pat { len, seed: 7 }));
             fixed.push(Case::Keccak(Bytes::Lit(vec![0u8; len.min(300)])));
         }
